@@ -3,7 +3,7 @@
 # Prints, per change, which properties give a concrete replay (C), which only a broken proof / translation (p),
 # and which stay silent (.) — the last two columns are what precision and recall across properties look like.
 HERE="$(cd "$(dirname "$0")/.." && pwd)"
-SRC="${1:-$HERE/seeded}"
+SRC="$(cd "${1:-$HERE/seeded}" && pwd)"
 WT="${VERIF_WT:-/tmp/verif-cross-wt-$$}"
 git -C /repo worktree remove --force $WT 2>/dev/null
 git -C /repo worktree add -q --detach $WT HEAD || exit 2
